@@ -103,7 +103,7 @@ Act_Survive ==
   [][last'.op \in SaveOps \cup {"Reopen"} => (st'.pkg = st.pkg /\ st'.def = st.def)]_vars
 \* only a trip through a foreign-named package changes the naming class, and never back
 Act_Names ==
-  [][st'.names # st.names => (last'.op = "Reopen" /\ last'.via = "word" /\ st'.names = "foreign")]_vars
+  [][st'.names # st.names => (last'.op = "Reopen" /\ last'.via \in {"word", "wordabs", "worddot"} /\ st'.names = "foreign")]_vars
 
 \* ---- generation: print each complete behaviour once ----------------------
 Emit == Len(hist) < Depth \/ PrintT(<<"WZCASE", ToJson(hist)>>)
